@@ -10,6 +10,7 @@ import (
 	"fmt"
 	"sort"
 	"strings"
+	"sync"
 	"testing"
 	"testing/synctest"
 	"time"
@@ -25,10 +26,15 @@ type ReachCase struct {
 	New     string   `json:"new"`               // behaviour of seed 1..n during NewClient
 	Refresh []string `json:"refresh,omitempty"` // per RefreshMetadata call: behaviour of seed 1..n then broker 1..Known
 	Pick    []int32  `json:"pick,omitempty"`    // priority in which client.any() picks among known brokers
+	Conc    int      `json:"conc,omitempty"`    // >1: that many RefreshMetadata calls are issued concurrently in each refresh phase
 }
 
 func (c ReachCase) String() string {
-	return fmt.Sprintf("seeds=%v known=%d alias=%v rm=%d new=%s refresh=%v pick=%v", c.Seeds, c.Known, c.Alias, c.RM, c.New, c.Refresh, c.Pick)
+	s := fmt.Sprintf("seeds=%v known=%d alias=%v rm=%d new=%s refresh=%v pick=%v", c.Seeds, c.Known, c.Alias, c.RM, c.New, c.Refresh, c.Pick)
+	if c.Conc > 1 {
+		s += fmt.Sprintf(" concurrent-calls=%d", c.Conc)
+	}
+	return s
 }
 
 type ReachResult struct {
@@ -236,8 +242,24 @@ func RunReach(t *testing.T, rc *ReachCase) *ReachResult {
 			nd, nr := len(s.DialLog()), len(s.ReqLog())
 			var rerr error
 			done = false
-			go func() { rerr = client.RefreshMetadata(); done = true }()
+			ncall := 1
+			if rc.Conc > 1 {
+				ncall = rc.Conc
+			}
+			errs := make([]error, ncall)
+			var wg sync.WaitGroup
+			for ci := 0; ci < ncall; ci++ {
+				ci := ci
+				wg.Add(1)
+				go func() { defer wg.Done(); errs[ci] = client.RefreshMetadata() }()
+			}
+			go func() { wg.Wait(); done = true }()
 			returned := await(&done, s)
+			for _, e := range errs {
+				if e != nil && rerr == nil {
+					rerr = e // a phase succeeds when every call of it does
+				}
+			}
 			res.Trace = append(res.Trace, fmt.Sprintf("RefreshMetadata #%d behaviours %s known=%v → returned=%v err=%v; dials %v; requests %v", k+1, beh, known, returned, rerr, s.DialLog()[nd:], s.ReqLog()[nr:]))
 			if !returned {
 				sig := "RefreshMetadata:never-returns"
@@ -259,7 +281,11 @@ func RunReach(t *testing.T, rc *ReachCase) *ReachResult {
 				if onlyDeadSeeds {
 					who = "seed-set-aside-as-dead-by-an-earlier-refresh"
 				}
-				res.Viol = append(res.Viol, Violation{fmt.Sprintf("RefreshMetadata:fails-although-a-%s-answers rm=%d", who, rc.RM),
+				conc := ""
+				if ncall > 1 {
+					conc = fmt.Sprintf(" concurrent-calls=%d", ncall)
+				}
+				res.Viol = append(res.Viol, Violation{fmt.Sprintf("RefreshMetadata:fails-although-a-%s-answers rm=%d%s", who, rc.RM, conc),
 					fmt.Sprintf("RefreshMetadata #%d returned %q although a %s answers (behaviours %s over seeds 1..%d + brokers 1..%d; client knew brokers %v; client state before the call %s)", k+1, rerr, who, beh, len(rc.Seeds), rc.Known, known, dump)})
 				res.Outcome += " refresh:fail!"
 			case !canOK && rerr == nil:
